@@ -208,13 +208,18 @@ def run_real(cases, timeout=300):
     return [parse_obs(l) for l in lines], lines
 
 
-def model_mismatches(ctx, tag, cases, real, variant="repaired"):
-    """indices of cases whose real observation differs from the Coq model's (evaluated in Coq)"""
+BOUND_FN = ("(fun c => run_case repaired (fuel_bound (c_graph c) (mk_config repaired (c_overflow c) (c_caching c) "
+            "(c_stop c) (c_panic c))) c)")
+
+
+def model_mismatches(ctx, tag, cases, real, variant="repaired", fn=None, imports=("Engine.RecEngine",)):
+    """indices of cases whose real observation differs from the Coq model's (evaluated in Coq);
+    fn=BOUND_FN (imports Engine.RecFuel) runs the model with exactly the explicit fuel bound"""
     idx = [i for i, r in enumerate(real) if r is not None and not any(o["out"] == ("OPanic", "Other") for o in r)]
     pairs = [(case_coq(*cases[i]), obs_coq(real[i])) for i in idx]
     if not pairs:
         return []
-    bad = core.coq_mismatches(ctx.work, tag, ["Engine.RecEngine"], fn="run_case %s %d%%nat" % (variant, FUEL),
+    bad = core.coq_mismatches(ctx.work, tag, list(imports), fn=fn or ("run_case %s %d%%nat" % (variant, FUEL)),
                               eqb="obs_list_eqb", in_ty="case", out_ty="list obs", pairs=pairs, shard=150)
     return [idx[b] for b in bad]
 
